@@ -87,6 +87,11 @@ fn random_text(rng: &mut Rng, maxlen: usize) -> String {
         ",", ".", "..", "#t", "#f", "#x", "#e", "12", "-", "+", "1/2", ".5", "\\", "\"a\\\"b\"",
         "λ", "é", "日本", "😀", "\u{85}", "\u{a0}", "#\\λ", "#\\space", "\t", "|",
     ];
+    // fix c1c04ca: the sign of an exponent belongs to the number token
+    const EXP_PIECES: [&str; 24] = [
+        "1e-7", "2.5E+3", ".5e-1", "-1e+2", "1e-", "1e-x", "1ee-7", ".e-1", ".5e-x", "1e-7x", "#x1e-7",
+        "#d1e-7", "#e1e-2", "1.e-2", "1e--7", "1e+-7", "+1e-7", "e", "E", "e-", "E+", "1e", ".5E", "7",
+    ];
     let n = rng.below(maxlen as u64 + 1);
     let mut s = String::new();
     for _ in 0..n {
@@ -104,6 +109,8 @@ fn random_text(rng: &mut Rng, maxlen: usize) -> String {
                 }
             };
             s.push(c);
+        } else if rng.chance(1, 7) {
+            s.push_str(EXP_PIECES[rng.below(EXP_PIECES.len() as u64) as usize]);
         } else {
             s.push_str(PIECES[rng.below(PIECES.len() as u64) as usize]);
         }
@@ -142,6 +149,33 @@ fn main() {
             for _ in 0..n {
                 let t = random_text(&mut rng, 14);
                 writeln!(out, "scan {}\t{}", enc_text(&t), impl_scan(&t)).unwrap();
+            }
+        }
+        // fix c1c04ca, exhaustive grid: mantissa x marker x sign x digits x what follows, as scanner input
+        // (`scan-exp`) and as reader input (`parse-exp`)
+        "scan-exp" | "parse-exp" => {
+            const MANT: [&str; 22] = ["1", "12", "1.", "1.5", ".5", ".", "-1", "+1", "-.5", "+1.5", "1.2.3", "..5", "",
+                                      "-", "+", "1/2", "a", "1e", "#x1", "#e1.", "0", ".5."];
+            const MARK: [&str; 4] = ["e", "E", "d", "ee"];
+            const SIGN: [&str; 5] = ["-", "+", "", "--", "+-"];
+            const DIG: [&str; 4] = ["", "7", "07", "123"];
+            const TRAIL: [&str; 12] = ["", " ", ")", "x", ";c", ".5", "e-1", "-", "\"s\"", "'", "\n", "."];
+            for m in MANT {
+                for k in MARK {
+                    for sg in SIGN {
+                        for d in DIG {
+                            for tr in TRAIL {
+                                let t = format!("{}{}{}{}{}", m, k, sg, d, tr);
+                                if cmd == "scan-exp" {
+                                    writeln!(out, "scan {}\t{}", enc_text(&t), impl_scan(&t)).unwrap();
+                                } else {
+                                    writeln!(out, "parse-text {} {}\t{}", enc_text(&t), oracle_text(&t), impl_parse_text(&t))
+                                        .unwrap();
+                                }
+                            }
+                        }
+                    }
+                }
             }
         }
         // exhaustive: all strings of up to L alphabet symbols, every byte cursor 0..=len+2
@@ -308,6 +342,19 @@ fn main() {
                 if let Some(l) = rn::literal_line(&mut vm, &z, radix) {
                     writeln!(out, "{}", l).unwrap();
                 }
+            }
+        }
+        // decimal spellings with a signed exponent (and near misses) as unprefixed source literals
+        "c16-src" => {
+            let n: usize = args[2].parse().unwrap();
+            let mut rng = Rng::new(seed ^ 0x19);
+            let mut vm = marwood::vm::Vm::new();
+            for s in SIGNED_EXP_FAMILY.iter().filter(|s| !s.contains(';')) {
+                writeln!(out, "{}", rn::source_line(&mut vm, s)).unwrap();
+            }
+            for _ in 0..n {
+                let s = rn::gen_source_spelling(&mut vm, &mut rng);
+                writeln!(out, "{}", rn::source_line(&mut vm, &s)).unwrap();
             }
         }
         _ => {
